@@ -58,7 +58,7 @@ def main():
             sigs = sorted({l.split("signature:", 1)[1].strip() for l in r.stdout.splitlines() if "signature:" in l})
             caught[c] = {"exit": r.returncode, "signatures": sigs}
         sh(f"git -C {wt} checkout -q -- .")
-        sh(f"rm -rf {VERIF}/replay")
+        sh(f"rm -rf {VERIF}/replay {VERIF}/scratch")
         tag = f"{pid}-{n}"
         if round2:
             k = 3
